@@ -7,9 +7,9 @@ Definition sched_stale : list ev :=
   [Step 1; Step 2;            (* both: exists() = true *)
    Step 1; Step 2;            (* both: read "99:0" *)
    Step 1; Step 2;            (* both: stale -> will remove *)
-   Step 1; Step 1; Step 1;    (* 1: remove, create_new, write  => 1 is in its critical section *)
+   Step 1; Step 1;            (* 1: remove, create              => 1 is in its critical section *)
    Step 2;                    (* 2: remove_file -- removes the lock of the running holder 1 *)
-   Step 2; Step 2].           (* 2: create_new, write          => 2 is in its critical section too *)
+   Step 2].                   (* 2: create                      => 2 is in its critical section too *)
 
 Lemma stale_two_holders :
   exists w, exec w_stale sched_stale = Some w /\ in_critical w = [1; 2] /\ mutex w = false.
@@ -17,7 +17,7 @@ Proof. eexists. split; [vm_compute; reflexivity|]. split; vm_compute; reflexivit
 
 (* the step in which process 2 deletes the lock file of the live holder 1 *)
 Lemma stale_foreign_removal :
-  exists w w', exec w_stale (firstn 9 sched_stale) = Some w /\ exec1 w (Step 2) = Some w' /\
+  exists w w', exec w_stale (firstn 8 sched_stale) = Some w /\ exec1 w (Step 2) = Some w' /\
                lock w = Some (CValid 1 1000) /\ in_critical w = [1] /\ lock w' = None.
 Proof. eexists. eexists. split; [vm_compute; reflexivity|]. repeat split; vm_compute; reflexivity. Qed.
 
@@ -26,13 +26,13 @@ Proof. eexists. eexists. split; [vm_compute; reflexivity|]. repeat split; vm_com
    orphaned and deletes the file -- which is now 2's ---- *)
 Definition w_fresh3 : world := init None 1000 [1; 2; 3].
 Definition sched_aba : list ev :=
-  [Step 1; Step 1; Step 1;            (* 1: exists()=false, create_new, write: critical *)
+  [Step 1; Step 1;                    (* 1: exists()=false, create: critical *)
    Step 3; Step 3;                    (* 3: exists()=true, read "1:1000" *)
    Step 1; Step 1; Step 1;            (* 1: finishes: Drop checks, removes, exits *)
-   Step 2; Step 2; Step 2;            (* 2: exists()=false, create_new, write: critical *)
+   Step 2; Step 2;                    (* 2: exists()=false, create: critical *)
    Step 3;                            (* 3: owner 1 is not running -> orphaned *)
    Step 3;                            (* 3: remove_file -- removes 2's lock *)
-   Step 3; Step 3].                   (* 3: create_new, write: critical *)
+   Step 3].                           (* 3: create: critical *)
 
 Lemma aba_two_holders :
   exists w, exec w_fresh3 sched_aba = Some w /\ in_critical w = [2; 3] /\ mutex w = false.
@@ -58,7 +58,7 @@ Qed.
 (* create_new is the only way into the critical path, and it needs the file to be absent *)
 Lemma enter_needs_absent w p w' :
   get_pc (procs w) p = Some PCreate -> step w p = Some w' ->
-  (lock w = None /\ lock w' = Some CEmpty) \/ (lock w <> None /\ lock w' = lock w).
+  (lock w = None /\ lock w' = Some (CValid p (now w))) \/ (lock w <> None /\ lock w' = lock w).
 Proof.
   intros Hpc H. unfold step in H. rewrite Hpc in H.
   destruct (lock w) as [c|] eqn:E; inversion H; subst; cbn; [right; split; [discriminate|reflexivity] | left; auto].
